@@ -290,8 +290,8 @@ func runFamilyAll(r *Reporter, prop string, runs []famRun, configs func(c *ProgC
 		o := TLCOpts{Module: fr.Module, Cfg: famCfg(fr.Consts), Simulate: fr.Simulate, Depth: fr.Depth, Seed: seed*1000 + fr.SeedOff}
 		if prop == "C12" {
 			o.Env = map[string]string{"VERIF_CYC4": "1"}
-			if tier == "thorough" {
-				o.Env["VERIF_CYC4"] = "2"
+			if tier == "thorough" && fr.Module != "General" {
+				o.Env["VERIF_CYC4"] = "2" // the families: runs up to 300 instructions; the simulated General programs stay at 48 (TLC time)
 			}
 		}
 		st := streamCases(r, o, 16, func(c *ProgCase) {
